@@ -322,7 +322,11 @@ def codec_leaf(m, cfg, f, args, t):
     """custom codec functions of the harness (`crate::codec::*`) are opaque leaves by the documented contract:
     encode_with writes one item, decode_with reads one item, cbor_len returns its length, is_nil/nil are arbitrary"""
     st = cfg.st
-    name = (f.get('rpath') or f.get('path')).split('::')[-1]
+    segs = (f.get('rpath') or f.get('path')).split('::')
+    name = segs[-1]
+    if name in ('encode', 'decode', 'cbor_len', 'is_nil', 'nil') and len(segs) >= 2:
+        # a codec *module* (`#[cbor(with = "path", has_nil)]`): same contract, functions named by role
+        name = {'encode': 'enc_', 'decode': 'dec_', 'cbor_len': 'len_', 'is_nil': 'is_nil_', 'nil': 'nil_'}[name] + segs[-2]
     if name.startswith('enc_'):
         emit(st, ('ENC', 'custom:' + name, vname(m, st, args[0])))
         return ok(UNIT)
